@@ -29,28 +29,28 @@ func Abs(ctx *expr.Context, input system.Collection, args ...expr.Expression) (s
 		return nil, fmt.Errorf("%w: received %v arguments, expected 0", ErrWrongArity, len(args))
 	}
 
-	switch input[0].(type) {
+	if !input.IsSingleton() {
+		return nil, errors.New("invalid input, is not a singleton")
+	}
+	// FHIR integer and decimal elements are numbers too
+	value, err := system.From(input[0])
+	if err != nil {
+		return nil, errors.New("input is not a number")
+	}
+	switch value := value.(type) {
 	case system.Integer:
-		// Input type conversion to int32
-		number, err := input.ToInt32()
-		if err != nil {
-			return nil, err
+		if value == math.MinInt32 {
+			// the absolute value is not representable as an Integer
+			return system.Collection{}, nil
 		}
-		// Absolution number
-		res := math.Abs(float64(number))
-		return system.Collection{system.Integer(res)}, nil
+		if value < 0 {
+			value = -value
+		}
+		return system.Collection{value}, nil
 	case system.Decimal:
-		// Input type conversion to float64
-		number, err := input.ToFloat64()
-		if err != nil {
-			return nil, err
-		}
-		// Absolution number
-		res := math.Abs(number)
-		result := decimal.NewFromFloat(res)
-		return system.Collection{system.Decimal(result)}, nil
+		return system.Collection{system.Decimal(decimal.Decimal(value).Abs())}, nil
 	case system.Quantity:
-		quantity := strings.Split(input[0].(system.Quantity).String(), " ")
+		quantity := strings.Split(value.String(), " ")
 		// Input type conversion
 		f, err := strconv.ParseFloat(quantity[0], 64)
 		if err != nil {
@@ -74,14 +74,12 @@ func Ceiling(ctx *expr.Context, input system.Collection, args ...expr.Expression
 	if len(args) != 0 {
 		return nil, fmt.Errorf("%w: received %v arguments, expected 0", ErrWrongArity, len(args))
 	}
-	// Input type conversion to float64
-	number, err := input.ToFloat64()
+	// Input type conversion to an exact decimal
+	number, err := exactDecimal(input)
 	if err != nil {
 		return nil, err
 	}
-	// Ceiling number
-	result := math.Ceil(number)
-	return system.Collection{system.Integer(result)}, nil
+	return integerOrEmpty(number.Ceil()), nil
 }
 
 // Exp returns e raised to the power of the input.
@@ -121,14 +119,12 @@ func Floor(ctx *expr.Context, input system.Collection, args ...expr.Expression) 
 	if len(args) != 0 {
 		return nil, fmt.Errorf("%w: received %v arguments, expected 0", ErrWrongArity, len(args))
 	}
-	// Input type conversion to float64
-	number, err := input.ToFloat64()
+	// Input type conversion to an exact decimal
+	number, err := exactDecimal(input)
 	if err != nil {
 		return nil, err
 	}
-	// Flooring number
-	result := math.Floor(number)
-	return system.Collection{system.Integer(result)}, nil
+	return integerOrEmpty(number.Floor()), nil
 }
 
 // Ln returns the natural logarithm of the input number.
@@ -285,17 +281,12 @@ func Round(ctx *expr.Context, input system.Collection, args ...expr.Expression) 
 		return nil, err
 	}
 	// Rounding number
-	switch value.(type) {
+	switch value := value.(type) {
 	case system.Decimal:
-		res, _ := input[0].(system.Decimal)
-		result := res.Round(precision)
+		result := value.Round(precision)
 		return system.Collection{result}, nil
 	case system.Integer:
-		number, err := input.ToInt32()
-		if err != nil {
-			return nil, err
-		}
-		res := system.MustParseDecimal(fmt.Sprintf("%d", number))
+		res := system.MustParseDecimal(fmt.Sprintf("%d", value))
 		result := res.Round(precision)
 		return system.Collection{result}, nil
 	}
@@ -339,14 +330,42 @@ func Truncate(ctx *expr.Context, input system.Collection, args ...expr.Expressio
 	if len(args) != 0 {
 		return nil, fmt.Errorf("%w: received %v arguments, expected 0", ErrWrongArity, len(args))
 	}
-	// Input type conversion to float64
-	number, err := input.ToFloat64()
+	// Input type conversion to an exact decimal
+	number, err := exactDecimal(input)
 	if err != nil {
 		return nil, err
 	}
-	// Ceiling number
-	result := math.Trunc(number)
-	return system.Collection{system.Integer(result)}, nil
+	return integerOrEmpty(number.Truncate(0)), nil
+}
+
+// exactDecimal returns the exact decimal value of a singleton Integer or Decimal
+// input (System values as well as FHIR integer and decimal elements).
+func exactDecimal(input system.Collection) (decimal.Decimal, error) {
+	if value, err := input.ToSingleton(); err == nil {
+		if value, err := system.From(value); err == nil {
+			switch value := value.(type) {
+			case system.Integer:
+				return decimal.NewFromInt32(int32(value)), nil
+			case system.Decimal:
+				return decimal.Decimal(value), nil
+			}
+		}
+	}
+	// not a number: report the same conversion error as before
+	_, err := input.ToFloat64()
+	if err == nil {
+		err = errors.New("input is not a number")
+	}
+	return decimal.Zero, err
+}
+
+// integerOrEmpty returns the whole number as an Integer, or an empty
+// collection if it is outside the Integer range.
+func integerOrEmpty(whole decimal.Decimal) system.Collection {
+	if whole.LessThan(decimal.NewFromInt(math.MinInt32)) || whole.GreaterThan(decimal.NewFromInt(math.MaxInt32)) {
+		return system.Collection{}
+	}
+	return system.Collection{system.Integer(whole.IntPart())}
 }
 
 func logToBase(number, base float64) float64 {
